@@ -5,6 +5,7 @@
 -/
 import RSVerif.Proofs.AllocSelect
 import RSVerif.Proofs.SrcWorkSpec
+import RSVerif.Proofs.SrcWorkNoResize
 
 namespace RS
 
@@ -75,5 +76,32 @@ theorem source_reset {σ : Type} (ops : ShardsOps σ) (k r sb ob rb wc : Nat) (h
       { original_count := k, recovery_count := r, shard_bytes := sb, original_received_count := 0,
         shards := ops.resize st.shards wc ((sb + 63) / 64) })) :=
   ⟨fun st => srcD_reset_spec ops st k r sb ob rb wc hsb h1 h2, fun st => srcE_reset_spec ops st k r sb wc hsb⟩
+
+open RS.RustW RS.SrcW in
+/-- ROUNDS NEVER RESIZE, in today's source (`Gen/SrcWork.lean`): give the abstract shard memory a counter that only
+    `Shards::resize` — the one operation that may allocate — can change (`CountsResizes`); then every translated
+    bookkeeping method other than `reset` (adds, `encode_begin` / `decode_begin`, the accessors, the implicit
+    `reset_received`, `undo_last_chunk_encoding`) returns with the counter where it was, whatever it answers, and the
+    decoder's bitmap keeps its length: the only call sites of `resize` / `grow` are the ones `source_reset` describes. -/
+theorem source_rounds_never_resize {σ : Type} (ops : ShardsOps (σ × Nat)) (h : CountsResizes ops)
+    (e e' : EncoderWorkS (σ × Nat)) (d d' : DecoderWorkS (σ × Nat)) :
+    ((∀ sh r, EncoderWork_add_original_shard ops e sh = some (r, e') → e'.shards.2 = e.shards.2) ∧
+     (∀ r, EncoderWork_encode_begin ops e = some (r, e') → e'.shards.2 = e.shards.2) ∧
+     (∀ i r, EncoderWork_recovery ops e i = some (r, e') → e'.shards.2 = e.shards.2) ∧
+     (∀ r, EncoderWork_reset_received ops e = some (r, e') → e'.shards.2 = e.shards.2) ∧
+     (∀ r, EncoderWork_undo_last_chunk_encoding ops e = some (r, e') → e'.shards.2 = e.shards.2)) ∧
+    ((∀ i sh r, DecoderWork_add_original_shard ops d i sh = some (r, d') →
+        d'.shards.2 = d.shards.2 ∧ d'.received.size = d.received.size) ∧
+     (∀ i sh r, DecoderWork_add_recovery_shard ops d i sh = some (r, d') →
+        d'.shards.2 = d.shards.2 ∧ d'.received.size = d.received.size) ∧
+     (∀ r, DecoderWork_decode_begin ops d = some (r, d') →
+        d'.shards.2 = d.shards.2 ∧ d'.received.size = d.received.size) ∧
+     (∀ i r, DecoderWork_restored_original ops d i = some (r, d') →
+        d'.shards.2 = d.shards.2 ∧ d'.received.size = d.received.size) ∧
+     (∀ r, DecoderWork_reset_received ops d = some (r, d') →
+        d'.shards.2 = d.shards.2 ∧ d'.received.size = d.received.size) ∧
+     (∀ r, DecoderWork_undo_last_chunk_encoding ops d = some (r, d') →
+        d'.shards.2 = d.shards.2 ∧ d'.received.size = d.received.size)) :=
+  ⟨src_encoder_round_never_resizes ops h e e', src_decoder_round_never_resizes ops h d d'⟩
 
 end RS
